@@ -7,8 +7,9 @@ import OmplModel.Proofs.PathOpsDensify
 
 Property theorems about the model `OmplModel.PathOps` (Model/PathOps.lean) of the deterministic path
 post-processing code: `PathSimplifier::reduceVertices` (as a function of its random index draws),
-`collapseCloseVertices`, `ropeShortcutPath`, the splice of `partialShortcutPath`, and
-`PathGeometric::subdivide` / `interpolate()` / `interpolate(count)`.
+`collapseCloseVertices`, `ropeShortcutPath`, the splice of `partialShortcutPath`, the return value of
+`simplify`, and `PathGeometric::subdivide` / `interpolate()` / `interpolate(count)`.  The model follows the
+tree after the fixes for F9 / F55 / F56; the code before them is kept as `…Old` with witness theorems.
 
 Quantifiers: every state type `σ`, every `checkMotion` oracle `cm`, every distance / interpolation /
 objective / rounding function, every draw stream, every step bound and every input path (any length,
@@ -114,65 +115,75 @@ theorem collapse_false_unchanged {α : Type} [BEq σ] {cm : σ → σ → Bool} 
 example : collapseCloseVertices (fun _ _ : Nat => true) (fun a b : Nat => (a - b) + (b - a)) (fun a b => decide (a < b))
     1000 1 0 [0, 10, 3, 20, 4] = some ([0, 10, 3, 4], true) := by decide
 
-/-! ## ropeShortcutPath -/
+/-! ## ropeShortcutPath (the tree after fix 695c3e72c; `ropeShortcutPathOld` is the code before it) -/
 
-/-- F9: checked indexing FAILS on the unchanged tree — after `states.erase(i+1 .. j)` the routine
-reads `states[j]`, here on a three-state path whose shortcut 0→2 is valid and better: index 2 of a
-two-element vector (`oob = true`) -/
-theorem rope_indices_in_range_fails :
-    ∃ out r fo, ropeShortcutPath f9Env false 10 [0, 1, 2] = some (out, r, true, fo) := rope_oob
+/-- **checked indexing never fails**: every index of the routine (both loops, the cumulative cost
+table, the erase range, the re-insertion, the distance read after the erase) is in range — the
+model never returns `none` and never flags a read past `end()` -/
+theorem rope_indices_in_range {γ : Type} (E : RopeEnv σ γ) (fuel : Nat) (path : List σ) :
+    ∃ out r fo, ropeShortcutPath E fuel path = some (out, r, false, fo) := by
+  obtain ⟨out, r, o, fo, h, _, _, h4⟩ := rope_spec E true fuel path
+  rw [h4 rfl] at h
+  exact ⟨out, r, fo, h⟩
 
-/-- … and when the stale index is still in range it names a later state, so the number of
-re-inserted intermediate states comes from the wrong distance (the repaired variant differs) -/
-theorem rope_stale_index_wrong_state :
-    ropeShortcutPath f9Env2 false 10 [0, 4, 2, 6, 10, 14] = some ([0, 1, 2, 6, 10, 14], true, false, false) ∧
-    ropeShortcutPath f9Env2 true 10 [0, 4, 2, 6, 10, 14] = some ([0, 2, 6, 10, 14], true, false, false) :=
-  rope_stale_wrong_state
-
-/-- what IS true of the unchanged code: every other index of the routine (both loops, the cumulative
-cost table, the erase range, the re-insertion) is always in range.  Full statement (false, see
-`rope_indices_in_range_fails`): additionally `oob = false`. -/
-theorem rope_indices_in_range_partial {γ : Type} (E : RopeEnv σ γ) (fixed : Bool) (fuel : Nat) (path : List σ) :
-    (ropeShortcutPath E fixed fuel path).isSome = true := rope_indices_partial E fixed fuel path
-
-/-- the repair proposed in notes/C17-fix-F9.diff never reads past the end -/
-theorem rope_fixed_indices_in_range {γ : Type} {E : RopeEnv σ γ} {fuel : Nat} {path out : List σ} {r oob fo : Bool}
-    (h : ropeShortcutPath E true fuel path = some (out, r, oob, fo)) : oob = false := rope_fixed_no_oob h
-
-theorem rope_keeps_first {γ : Type} {E : RopeEnv σ γ} {fixed : Bool} {fuel : Nat} {path out : List σ} {r oob fo : Bool}
-    (h : ropeShortcutPath E fixed fuel path = some (out, r, oob, fo)) : out.head? = path.head? :=
+theorem rope_keeps_first {γ : Type} {E : RopeEnv σ γ} {fuel : Nat} {path out : List σ} {r oob fo : Bool}
+    (h : ropeShortcutPath E fuel path = some (out, r, oob, fo)) : out.head? = path.head? :=
   OmplModel.PathOps.rope_keeps_first h
 
-theorem rope_keeps_last {γ : Type} {E : RopeEnv σ γ} {fixed : Bool} {fuel : Nat} {path out : List σ} {r oob fo : Bool}
-    (h : ropeShortcutPath E fixed fuel path = some (out, r, oob, fo)) : out.getLast? = path.getLast? :=
+theorem rope_keeps_last {γ : Type} {E : RopeEnv σ γ} {fuel : Nat} {path out : List σ} {r oob fo : Bool}
+    (h : ropeShortcutPath E fuel path = some (out, r, oob, fo)) : out.getLast? = path.getLast? :=
   OmplModel.PathOps.rope_keeps_last h
 
 /-- every motion of the result is a piece (a motion of the chain `a, interp…, b`) of an input motion
-or of a motion `checkMotion` answered true for — with or without the stale-index defect -/
-theorem rope_only_validated_motions {γ : Type} {E : RopeEnv σ γ} {fixed : Bool} {fuel : Nat} {path out : List σ}
-    {r oob fo : Bool} (h : ropeShortcutPath E fixed fuel path = some (out, r, oob, fo)) :
+or of a motion `checkMotion` answered true for -/
+theorem rope_only_validated_motions {γ : Type} {E : RopeEnv σ γ} {fuel : Nat} {path out : List σ}
+    {r oob fo : Bool} (h : ropeShortcutPath E fuel path = some (out, r, oob, fo)) :
     ∀ p ∈ adj out, Derived E path p := rope_only_validated h
 
 /-- never longer in a metric-like setting: `dist` obeys the triangle inequality and the interpolated
-chain between two states is a geodesic (its length is the distance of its ends); holds for the
-unchanged code too (the stale index only changes HOW MANY chain states are inserted) -/
+chain between two states is a geodesic (its length is the distance of its ends) -/
 theorem rope_never_longer {γ α : Type} [AddCommMonoid α] [PartialOrder α] [IsOrderedAddMonoid α]
     (dist : σ → σ → α) (tri : ∀ a b c, dist a c ≤ dist a b + dist b c)
     (E : RopeEnv σ γ) (geo : ∀ a b n, pathLen dist (a :: (inters E a b n ++ [b])) = dist a b)
-    {fixed : Bool} {fuel : Nat} {path out : List σ} {r oob fo : Bool}
-    (h : ropeShortcutPath E fixed fuel path = some (out, r, oob, fo)) : pathLen dist out ≤ pathLen dist path :=
+    {fuel : Nat} {path out : List σ} {r oob fo : Bool}
+    (h : ropeShortcutPath E fuel path = some (out, r, oob, fo)) : pathLen dist out ≤ pathLen dist path :=
   OmplModel.PathOps.rope_never_longer dist tri E geo h
 
-theorem rope_false_only_densified {γ : Type} {E : RopeEnv σ γ} {fixed : Bool} {fuel : Nat} {path out : List σ}
-    {oob fo : Bool} (h : ropeShortcutPath E fixed fuel path = some (out, false, oob, fo)) :
+theorem rope_false_only_densified {γ : Type} {E : RopeEnv σ γ} {fuel : Nat} {path out : List σ}
+    {oob fo : Bool} (h : ropeShortcutPath E fuel path = some (out, false, oob, fo)) :
     out = path ∨ out = ropeDensify E path := rope_false_unchanged h
 
 /-- the original vertices survive the densification pass in order -/
 theorem rope_densify_subsequence {γ : Type} (E : RopeEnv σ γ) (l : List σ) : l.Sublist (ropeDensify E l) :=
   ropeDensify_sublist E l
 
-/-- non-vacuity: the repaired variant on the F9 input -/
-example : ropeShortcutPath f9Env true 10 [0, 1, 2] = some ([0, 2], true, false, false) := rope_oob_fixed
+/-- non-vacuity: the routine on the former F9 input -/
+example : ropeShortcutPath f9Env 10 [0, 1, 2] = some ([0, 2], true, false, false) := rope_oob_fixed
+
+/-! ### the code before the fix (F9), kept as `ropeShortcutPathOld` -/
+
+/-- F9: checked indexing FAILED before the fix — after `states.erase(i+1 .. j)` the routine read
+`states[j]`, here on a three-state path whose shortcut 0→2 is valid and better: index 2 of a
+two-element vector (`oob = true`) -/
+theorem rope_old_indices_in_range_fails :
+    ∃ out r fo, ropeShortcutPathOld f9Env 10 [0, 1, 2] = some (out, r, true, fo) := rope_oob
+
+/-- … and when the stale index was still in range it named a later state, so the number of
+re-inserted intermediate states came from the wrong distance (old and current code differ) -/
+theorem rope_old_stale_index_wrong_state :
+    ropeShortcutPathOld f9Env2 10 [0, 4, 2, 6, 10, 14] = some ([0, 1, 2, 6, 10, 14], true, false, false) ∧
+    ropeShortcutPath f9Env2 10 [0, 4, 2, 6, 10, 14] = some ([0, 2, 6, 10, 14], true, false, false) :=
+  rope_stale_wrong_state
+
+/-- what was true of the old code: every other index was in range, and the property's clauses
+(first, last, validated motions) held in spite of the stale index -/
+theorem rope_old_indices_in_range_partial {γ : Type} (E : RopeEnv σ γ) (fuel : Nat) (path : List σ) :
+    (ropeShortcutPathOld E fuel path).isSome = true := rope_indices_partial E false fuel path
+
+theorem rope_old_clauses {γ : Type} {E : RopeEnv σ γ} {fuel : Nat} {path out : List σ} {r oob fo : Bool}
+    (h : ropeShortcutPathOld E fuel path = some (out, r, oob, fo)) :
+    out.head? = path.head? ∧ out.getLast? = path.getLast? ∧ ∀ p ∈ adj out, Derived E path p :=
+  ⟨OmplModel.PathOps.rope_keeps_first h, OmplModel.PathOps.rope_keeps_last h, rope_only_validated h⟩
 
 /-! ## the splice of partialShortcutPath (index / erase / insert bookkeeping of the four cases) -/
 
@@ -212,6 +223,29 @@ theorem pshort_splice_spec (st : List σ) (pos0 pos1 : Nat) (idx0 idx1 : Bool) (
 
 example : psSplice [0, 10, 20, 30, 40] 0 false 5 2 false 25 = some [0, 5, 25, 30, 40] := by decide
 example : psSkip 0 false 2 false = false := by decide
+
+/-! ## the return value of simplify (fix 3ab8608d2: `return path.check()`) -/
+
+/-- `simplify` returning true implies that the resulting path passes `check()`: for inputs of fewer
+than three states the routine returns true at once without touching the path (so the claim rests on
+the input being valid — the property's own premise), otherwise the answer is `check()` itself -/
+theorem simplify_true_implies_check (check : List σ → Bool) (inp out : List σ)
+    (hvalid : check inp = true) (hsmall : inp.length < 3 → out = inp)
+    (h : simplifyReturn check inp out = true) : check out = true := by
+  unfold simplifyReturn at h
+  split at h
+  · next hs => rw [hsmall hs]; exact hvalid
+  · exact h
+
+/-- F56: before the fix (`return valid || path.check()` with `valid` still true because the
+termination condition fired before the next `checkAndRepair`) true could be returned for a path
+that fails `check()` -/
+theorem simplify_old_true_without_check :
+    ∃ (check : List Nat → Bool) (inp out : List Nat),
+      check inp = true ∧ simplifyReturnOld true check inp out = true ∧ check out = false :=
+  ⟨fun l => l.length == 3, [0, 1, 2], [0, 1, 2, 3], by decide, by decide, by decide⟩
+
+example : simplifyReturn (fun l : List Nat => l.length == 3) [0, 1, 2] [0, 1, 2, 3] = false := by decide
 
 /-! ## densification: subdivide, interpolate(), interpolate(count) -/
 
